@@ -29,31 +29,33 @@ Proof.
     + destruct (c =? ch_amp); [reflexivity|]. apply IH. lia.
 Qed.
 
-Lemma magnet_loop_t_erase : forall fuel pos hash ts tr,
-  fst (magnet_loop_t fuel pos hash ts tr) = magnet_loop fuel pos hash ts.
+Lemma magnet_loop_t_erase : forall rf fuel pos hash ts tr,
+  fst (magnet_loop_t rf fuel pos hash ts tr) = magnet_loop rf fuel pos hash ts.
 Proof.
-  induction fuel as [|f IH]; intros pos hash ts tr; [reflexivity|].
+  intro rf. induction fuel as [|f IH]; intros pos hash ts tr; [reflexivity|].
   cbn [magnet_loop_t magnet_loop]. destruct pos as [|c0 pos0] eqn:Ep; [reflexivity|]. rewrite <- Ep. clear Ep c0 pos0.
   destruct (span_eq pos []) as [tag rest]. cbv beta iota zeta.
   destruct rest as [|e pos1]; [reflexivity|].
-  destruct (bytes_eqb tag tag_xt) eqn:Ext; cbv beta iota zeta; cbn [andb].
-  - destruct ((N.of_nat (length pos1) <? 9) || negb (bytes_eqb (firstn 9 pos1) urn_btih)); [reflexivity|].
-    cbn [bind]. unfold parse_base32_sha1. rewrite b32_loop_t_erase.
+  match goal with |- fst (if ?c then _ else _) = _ => destruct c end; [reflexivity|].
+  set (no_urn := (N.of_nat (length pos1) <? 9) || negb (bytes_eqb (firstn 9 pos1) urn_btih)).
+  set (is_xt := bytes_eqb tag tag_xt).
+  destruct (is_xt && negb no_urn) eqn:Eih; cbv beta iota zeta.
+  - unfold parse_base32_sha1. rewrite b32_loop_t_erase.
     destruct (b32_loop (skipn 9 pos1) [] base_shift 0) as [[h next]|]; [apply IH|].
     rewrite (url_decode_t_erase _ _ _ _ (le_n _)).
     destruct (url_decode (skipn 9 pos1) []) as [[decoded next]| |]; cbn [bind]; try reflexivity.
     destruct (N.of_nat (length decoded) =? hash_size); [apply IH|].
     destruct (N.of_nat (length decoded) =? 2 * hash_size); [|reflexivity].
     destruct (from_hex decoded); [apply IH | reflexivity].
-  - cbn [bind fst snd]. rewrite (url_decode_t_erase _ _ _ _ (le_n _)).
+  - cbn [fst snd]. rewrite (url_decode_t_erase _ _ _ _ (le_n _)).
     destruct (url_decode pos1 []) as [[decoded next]| |]; cbn [bind]; try reflexivity.
     destruct (bytes_eqb tag tag_tr); apply IH.
 Qed.
 
-Theorem parse_magnet_hash_t_erase : forall uri, fst (parse_magnet_hash_t uri) = parse_magnet_hash uri.
+Theorem parse_magnet_hash_t_erase : forall rf uri, fst (parse_magnet_hash_t rf uri) = parse_magnet_hash rf uri.
 Proof.
-  intro uri. unfold parse_magnet_hash_t, parse_magnet_hash.
+  intros rf uri. unfold parse_magnet_hash_t, parse_magnet_hash.
   destruct (negb (bytes_eqb (firstn 8 uri) magnet_prefix)); [reflexivity|].
   rewrite magnet_loop_t_erase.
-  destruct (magnet_loop (S (length uri)) (skipn 8 uri) None []) as [[[h|] ts]| |]; reflexivity.
+  destruct (magnet_loop rf (S (length uri)) (skipn 8 uri) None []) as [[[h|] ts]| |]; reflexivity.
 Qed.
